@@ -725,3 +725,101 @@ func PipelineCases() []*Case {
 	}
 	return out
 }
+
+// DeterminismBundles: multi-file, multi-package programs with many sibling
+// imports, options and annotations (the shapes where an iteration or listing
+// order could leak into the output).
+func DeterminismBundles() []*Case {
+	var out []*Case
+	add := func(id string, files ...*File) {
+		out = append(out, &Case{ID: "bundle:" + id, Family: "bundles", Coord: "bundles|" + id, P: &Program{Files: files}})
+	}
+	{ // two packages, three files, references in every direction the language allows
+		x := file("a/v1", "x")
+		money := obj("Money", fld("amount", T(TDecimal)), fld("currency", T(TString)))
+		kind := enumD("Kind", "ONE", "TWO", "THREE")
+		x.Add(money)
+		x.Add(kind)
+		y := file("a/v1", "y")
+		line := obj("Line", fld("price", RefTo(money, "")), fld("kind", RefTo(kind, "")), fld("tags", MapOf(T(TString))))
+		y.Add(line)
+		pick := oneofD("Pick", fld("money", RefTo(money, "")), fld("line", RefTo(line, "")))
+		y.Add(pick)
+		w := file("a/v1", "w")
+		basket := obj("Basket", fld("lines", ArrayOf(RefTo(line, ""))), fld("pick", RefTo(pick, "")))
+		w.Add(basket)
+		z := file("b/v1", "z")
+		z.Imports = []Import{{Pkg: "a.v1", Alias: "shop"}}
+		z.Add(obj("Order", fld("basket", RefTo(basket, "shop")), fld("total", RefTo(money, "shop")), fld("kinds", ArrayOf(RefTo(kind, "shop")))))
+		z.Add(&Service{Name: "Order", BasePath: "/b/v1", Methods: []*Method{
+			{Name: "GetOrder", Verb: "GET", Path: "/orders/:orderId", Request: []*Field{fld("orderId", T(TKeyID62))}, HasResponse: true, Response: []*Field{fld("order", RefTo(z.Decls[0].(*Decl), ""))}},
+			{Name: "PutOrder", Verb: "PUT", Path: "/orders/:orderId", Request: []*Field{fld("orderId", T(TKeyID62)), fld("total", RefTo(money, "shop"))}, HasResponse: true},
+		}})
+		add("cross-package", x, y, w, z)
+	}
+	{ // one file importing four packages
+		var files []*File
+		m := file("m/v1", "main")
+		var fields []*Field
+		for _, n := range []string{"delta", "alpha", "charlie", "bravo"} {
+			f := file(n+"/v1", "t")
+			d := obj(UpperFirst(n), fld("x", T(TString)))
+			f.Add(d)
+			e := enumD(UpperFirst(n)+"Kind", "A", "B")
+			f.Add(e)
+			files = append(files, f)
+			m.Imports = append(m.Imports, Import{Pkg: n + ".v1"})
+			fields = append(fields, fld(n, RefTo(d, n)), fld(n+"Kind", RefTo(e, n)))
+		}
+		m.Add(obj("Main", fields...))
+		add("many-imports", append([]*File{m}, files...)...)
+	}
+	{ // entity, service and topic in one package over two files
+		f := file("t/v1", "a")
+		info := obj("Info", fld("text", T(TString)), fld("count", T(TInt32)))
+		f.Add(info)
+		e := basicEntity("Foo", []*Field{fld("name", T(TString)), fld("info", RefTo(info, "")), fld("when", T(TTimestamp))}, []*Field{fld("name", T(TString)), fld("info", RefTo(info, ""))})
+		e.Keys = append(e.Keys, &EntityKey{Field: fld("tenantId", T(TKeyID62)), Tenant: "account"})
+		e.Events = append(e.Events, &Event{Name: "Rename", Fields: []*Field{fld("name", T(TString))}})
+		e.Commands = []*Service{{Methods: []*Method{
+			{Name: "CreateFoo", Verb: "POST", Path: "/:fooId/create", Request: []*Field{fld("fooId", T(TKeyID62)), fld("name", T(TString))}, HasResponse: true},
+			{Name: "RenameFoo", Verb: "POST", Path: "/:fooId/rename", Request: []*Field{fld("fooId", T(TKeyID62)), fld("name", T(TString))}, HasResponse: true},
+		}}}
+		f.Add(e)
+		g := file("t/v1", "b")
+		g.Add(&Topic{Name: "Note", Kind: "publish", Messages: []*TopicMsg{{Name: "Created", Fields: []*Field{fld("info", RefTo(info, ""))}}, {Name: "Removed", Fields: []*Field{fld("id", T(TKeyID62))}}}})
+		g.Add(&Service{Name: "Info", BasePath: "/t/v1/info", Methods: []*Method{{Name: "GetInfo", Verb: "GET", Path: "/:id", Request: []*Field{fld("id", T(TKeyID62))}, HasResponse: true, Response: []*Field{fld("info", RefTo(info, ""))}}}})
+		add("entity-service-topic", f, g)
+	}
+	{ // several annotations on every field
+		f := file("r/v1", "rules")
+		kind := enumD("Kind", "ONE", "TWO", "THREE")
+		f.Add(kind)
+		f.Add(obj("Ruled",
+			&Field{Name: "name", T: T(TString), Required: true, Desc: "the name", Attrs: []string{"rules.minLength = 1", "rules.maxLength = 10", `rules.pattern = "^[a-z]+$"`, "listRules.searching.searchable = true"}},
+			&Field{Name: "count", T: T(TInt64), Attrs: []string{"rules.minimum = 1", "rules.maximum = 10", "rules.exclusiveMaximum = true", "listRules.filtering.filterable = true", "listRules.sorting.sortable = true"}},
+			&Field{Name: "ratio", T: T(TFloat64), Attrs: []string{"listRules.filtering.filterable = true", "listRules.sorting.sortable = true"}},
+			&Field{Name: "id", T: T(TKeyUUID), Required: true, Attrs: []string{"listRules.filtering.filterable = true"}},
+			&Field{Name: "kind", T: RefTo(kind, ""), Required: true, Attrs: []string{"rules.in = [\"ONE\", \"TWO\"]", "listRules.filtering.filterable = true"}},
+			&Field{Name: "when", T: T(TTimestamp), Attrs: []string{"listRules.filtering.filterable = true", "listRules.sorting.sortable = true"}},
+			&Field{Name: "tags", T: ArrayOf(T(TString)), Attrs: []string{"rules.minItems = 1", "rules.maxItems = 5", "rules.uniqueItems = true"}},
+			&Field{Name: "flag", T: T(TBool), Optional: true, Attrs: []string{"listRules.filtering.filterable = true"}},
+		))
+		add("rules", f)
+	}
+	{ // nested inline types
+		f := file("n/v1", "nest")
+		deep := obj("", fld("x", T(TString)), fld("e", InlineOf(enumD("", "A", "B"))))
+		choice := oneofD("", fld("one", InlineOf(obj("", fld("q", T(TString))))), fld("two", InlineOf(obj("", fld("r", T(TInt32))))))
+		inner := obj("", fld("deep", InlineOf(deep)), fld("choice", InlineOf(choice)))
+		f.Add(obj("Outer",
+			fld("inner", InlineOf(inner)),
+			fld("items", ArrayOf(InlineOf(obj("", fld("z", T(TBool)))))),
+			fld("byName", MapOf(InlineOf(obj("", fld("w", T(TString)))))),
+		))
+		g := file("n/v1", "other")
+		g.Add(obj("User", fld("outer", RefTo(f.Decls[0].(*Decl), ""))))
+		add("nested", f, g)
+	}
+	return out
+}
